@@ -7,20 +7,20 @@ import (
 // ReqRecord is everything the simulator observed while one request was
 // executed (by one task).
 type ReqRecord struct {
-	Steps         []*BiasStep
-	ListenerCalls []string
-	MethodCalled  bool
-	MethodName    string
-	MethodState   *StateSnap // state handed to Evaluate
+	Steps            []*BiasStep
+	ListenerCalls    []string
+	MethodCalled     bool
+	MethodName       string
+	MethodState      *StateSnap // state handed to Evaluate
 	MethodStateAfter *StateSnap // same object re-snapshotted after Evaluate returned
-	RankingDeep   string
-	Gens          []*GenRec
-	FuelExhausted bool
-	FuelSite      int
-	Inject        *Injection
-	injectedAt    string
-	biasCalls     int
-	listenerCalls int
+	RankingDeep      string
+	Gens             []*GenRec
+	FuelExhausted    bool
+	FuelSite         int
+	Inject           *Injection
+	injectedAt       string
+	biasCalls        int
+	listenerCalls    int
 }
 
 type BiasStep struct {
